@@ -54,15 +54,22 @@ Res(st, e) == [s |-> st, err |-> e]
 (***************************************************************************)
 (* comparison of the logged projection of the implementation state         *)
 (***************************************************************************)
+(* The dependency bookkeeping is compared through what it MEANS, not how it is kept: which dependencies have waiters, *)
+(* and which of those have been met and not yet drained ("releasable").  A met name nobody waits for, a name met     *)
+(* twice, or an emptied waiter list left behind are representation, and so is a line named twice in the list of       *)
+(* unimplemented lines.                                                                                                *)
+NonEmptyDeps(U) == {d \in DOMAIN U : U[d] # <<>>}
+Releasable(U, M) == SeqToSet(M) \cap NonEmptyDeps(U)
+
 ScalarErr(st, sc) ==
   IF sc.q # Len(st.queue) THEN "state: queue length"
   ELSE IF sc.vals # Cardinality(DOMAIN st.vals) THEN "state: number of stored values"
   ELSE IF sc.forms # Cardinality(st.forms) THEN "state: number of forms"
-  ELSE IF sc.fdU # Cardinality(DOMAIN st.fdU) THEN "state: unmet field dependencies"
-  ELSE IF sc.fdM # Len(st.fdM) THEN "state: met field dependencies"
-  ELSE IF sc.idU # Cardinality(DOMAIN st.idU) THEN "state: unmet input dependencies"
-  ELSE IF sc.idM # Len(st.idM) THEN "state: met input dependencies"
-  ELSE IF sc.unimpl # Len(st.unimpl) THEN "state: unimplemented list"
+  ELSE IF sc.fdU # Cardinality(NonEmptyDeps(st.fdU)) THEN "state: unmet field dependencies"
+  ELSE IF sc.fdM # Cardinality(Releasable(st.fdU, st.fdM)) THEN "state: met field dependencies"
+  ELSE IF sc.idU # Cardinality(NonEmptyDeps(st.idU)) THEN "state: unmet input dependencies"
+  ELSE IF sc.idM # Cardinality(Releasable(st.idU, st.idM)) THEN "state: met input dependencies"
+  ELSE IF sc.unimpl # Cardinality(SeqToSet(st.unimpl)) THEN "state: unimplemented list"
   ELSE IF sc.refused # st.refused THEN "state: refused flag"
   ELSE IF sc.specs # Cardinality(st.specs) THEN "state: input specifications"
   ELSE IF sc.fmap # Cardinality(st.fmap) THEN "state: field map"
@@ -79,21 +86,21 @@ IsPerm(a, b) == /\ Len(a) = Len(b)
 (* property fixes an order), contents are compared as multisets.           *)
 SeqEq(a, b) == IF T.det THEN a = b ELSE IsPerm(a, b)
 
-TrackerEq(U, J) == DOMAIN U = DOMAIN J /\ \A d \in DOMAIN U : SeqEq(U[d], J[d])
+TrackerEq(U, J) == NonEmptyDeps(U) = NonEmptyDeps(J) /\ \A d \in NonEmptyDeps(U) : SeqEq(U[d], J[d])
 ValsEq(U, J) == DOMAIN U = DOMAIN J /\ \A d \in DOMAIN U : U[d] = J[d]
 
 SnapErr(st, sn) ==
   IF ~SeqEq(sn.queue, st.queue) THEN "snapshot: queue"
   ELSE IF ~TrackerEq(st.fdU, sn.fdU) THEN "snapshot: field tracker unmet map"
-  ELSE IF ~SeqEq(sn.fdM, st.fdM) THEN "snapshot: field tracker met list"
+  ELSE IF Releasable(sn.fdU, sn.fdM) # Releasable(st.fdU, st.fdM) THEN "snapshot: field tracker met list"
   ELSE IF ~TrackerEq(st.idU, sn.idU) THEN "snapshot: input tracker unmet map"
-  ELSE IF ~SeqEq(sn.idM, st.idM) THEN "snapshot: input tracker met list"
+  ELSE IF Releasable(sn.idU, sn.idM) # Releasable(st.idU, st.idM) THEN "snapshot: input tracker met list"
   ELSE IF SeqToSet(sn.forms) # st.forms THEN "snapshot: forms"
   ELSE IF SeqToSet(sn.specs) # st.specs THEN "snapshot: input specifications"
   ELSE IF SeqToSet(sn.fmap) # st.fmap THEN "snapshot: field map"
   ELSE IF SeqToSet(sn.solving) # st.solving THEN "snapshot: solving set"
   ELSE IF ~ValsEq(st.vals, sn.vals) THEN "snapshot: stored values"
-  ELSE IF ~SeqEq(sn.unimpl, st.unimpl) THEN "snapshot: unimplemented list"
+  ELSE IF SeqToSet(sn.unimpl) # SeqToSet(st.unimpl) THEN "snapshot: unimplemented list"
   ELSE IF sn.refused # st.refused THEN "snapshot: refused flag"
   ELSE ""
 
